@@ -97,7 +97,7 @@ def model_apply(v, op):
     raise ValueError(kind)
 
 
-def mutator_contract(style, n, op_name, op_builder, watched, stale=0):
+def mutator_contract(style, n, op_name, op_builder, watched, stale=0, ghosts=0):
     """op_builder(objs, keys, extra) -> (method name, call args as Vals, model op)"""
     def setup(I, st):
         U = I.U
@@ -119,7 +119,13 @@ def mutator_contract(style, n, op_name, op_builder, watched, stale=0):
             I.dict_store(st, watchers, Conc("objects"), I.make_list(st, [Sym(U.fresh("watcher"))]))
         p, T = S.param_obj(I, st, "Selector", {"_objects": backing, "names": names, "watchers": watchers}, label="p", lazy=False)
         # a handle obtained earlier may lag behind: it misses the last `stale` objects
-        proxy = I.make_list(st, objs[:len(objs) - stale] if stale else objs, cls="ListProxy")
+        # … or still hold objects that have been removed since (`ghosts`)
+        gh = [Sym(U.fresh("removed_since%d" % k)) for k in range(ghosts)]
+        for g in gh:
+            st.pc += [g.t != U.NONE, vm.ty(g.t) == vm.TAG["object"]]
+        if gh:
+            st.pc.append(z3.Distinct(*(allv + [g.t for g in gh])))
+        proxy = I.make_list(st, (objs[:len(objs) - stale] if stale else objs) + gh, cls="ListProxy")
         st.heap[proxy.oid].fields["_parameter"] = p
 
         def trigger_event(I, st2, fv, args, kwargs, ctx):
@@ -128,6 +134,17 @@ def mutator_contract(style, n, op_name, op_builder, watched, stale=0):
         I.contracts["Parameter._trigger_event"] = trigger_event
         I.lib["value._warn"] = lambda *a, **k: None
         I.contracts["ListProxy._warn"] = lambda I, st2, fv, args, kwargs, ctx: [(st2, Conc(None))]
+
+        def named_objs(I, st2, fv, args, kwargs, ctx):
+            # `_named_objs(objs)`: one (generated, pairwise distinct) name per object, in order
+            its = I.known_items(st2, args[0])
+            if its is None:
+                raise OutOfReach("_named_objs over a list of unknown length")
+            d = I.alloc_dict(st2)
+            for j, o in enumerate(its):
+                I.dict_store(st2, d, Conc("<generated name %d>" % j), o)
+            return [(st2, d)]
+        I.contracts["_named_objs"] = named_objs
         mname, args, mop = op_builder(objs, keys, extra)
         found = I.src.find_method("ListProxy", mname)
         fv = I.bound_method(proxy, found)
@@ -155,7 +172,7 @@ def mutator_contract(style, n, op_name, op_builder, watched, stale=0):
             if items is None or len(items) != len(objs):
                 return z3.BoolVal(False)
             return z3.And([same(I, a, b) for a, b in zip(items, objs)]) if objs else z3.BoolVal(True)
-        if not stale:
+        if not stale and not ghosts:
             out.append(("list view == expected objects, in order", seq_eq(pits, want.objs)))
         out.append(("`_objects` == expected objects, in order", seq_eq(bits, want.objs)))
         if nd is None:
@@ -175,9 +192,44 @@ def mutator_contract(style, n, op_name, op_builder, watched, stale=0):
         if watched and len(notes) == 1:
             out.append(("notification is for 'objects'", z3.BoolVal(isinstance(notes[0][0], Conc) and notes[0][0].py == "objects")))
         return out
+    c_ = _mk_contract(style, n, op_name, op_builder, watched, stale, ghosts, setup, post)
+    if ghosts:
+        c_.static_replay = GHOST_REPLAY
+        c_.static_witness = "key assignment / update through a handle obtained before the objects were emptied"
+    return c_
+
+
+GHOST_REPLAY = '''import sys, os
+sys.path.insert(0, os.environ.get('PYVC_REPO', '/repo'))
+import param
+bad = []
+class P(param.Parameterized):
+    x = param.Selector(objects={'k0': 1, 'k1': 2, 'k2': 3})
+def fresh(p):
+    return dict(p.param.x.names), list(p.param.x.objects)
+p = P(); h = p.param.x.objects; p.param.x.objects.clear(); h['n0'] = 1
+if fresh(p) != ({'n0': 1}, [1]):
+    bad.append("clear() then h['n0'] = 1 through the earlier handle: names, objects == %r" % (fresh(p),))
+p = P(); h = p.param.x.objects; p.param.x.objects.clear(); h.update({})
+if fresh(p) != ({}, []):
+    bad.append("clear() then h.update({}) through the earlier handle: names, objects == %r" % (fresh(p),))
+p = P(); h = p.param.x.objects; p.param.x.objects = {}; h['n0'] = 1
+if fresh(p) != ({'n0': 1}, [1]):
+    bad.append("objects = {} then h['n0'] = 1 through the earlier handle: names, objects == %r" % (fresh(p),))
+if bad:
+    print('REPRODUCED: C18 names no longer describe the objects of the list view:')
+    for b in bad:
+        print('  ', b)
+    sys.exit(1)
+print('NOT-REPRODUCED'); sys.exit(0)
+'''
+
+
+def _mk_contract(style, n, op_name, op_builder, watched, stale, ghosts, setup, post):
     return FunctionContract("%s:ListProxy.%s" % (MOD, op_builder(["?"] * n, ["k%d" % k for k in range(n)], ["?", "?"])[0]), PROP,
                             setup, post, name="ListProxy.%s[%s-declared, %d objects%s%s]" % (
-                                op_name, style, n, ", watched" if watched else "", ", handle obtained %d mutation(s) earlier" % stale if stale else ""))
+                                op_name, style, n, ", watched" if watched else "", ", handle obtained %d mutation(s) earlier" % stale if stale else
+                                (", handle still holding %d object(s) removed since" % ghosts if ghosts else "")))
 
 
 def contracts():
@@ -212,6 +264,9 @@ def contracts():
     for n in (1, 2, 3):
         C.append(mutator_contract("list", n, "append", lambda o, k, x: ("append", [x[0]], ("append", x[0])), False, stale=1))
         C.append(mutator_contract("list", n, "extend", lambda o, k, x: ("extend", [TupV([x[0], x[1]])], ("extend", [x[0], x[1]])), False, stale=1))
+    for (n, g) in ((0, 2), (2, 1)):
+        C.append(mutator_contract("dict", n, "[newkey]=", lambda o, k, x: ("__setitem__", [Conc("knew"), x[0]], ("setkey", "knew", x[0])), False, ghosts=g))
+    C.append(mutator_contract("list", 1, "append", lambda o, k, x: ("append", [x[0]], ("append", x[0])), False, ghosts=1))
     return C
 
 
